@@ -1,4 +1,5 @@
-/-! Scratch prototype: std::path file-name algebra and txtpp naming (4.6) -/
+/-! std::path file-name algebra (`extension`, `file_stem`, `set_extension`) and the txtpp naming
+    rules of `fs/path/mod.rs` (DESIGN 4.6) -/
 namespace PathName
 abbrev Str := List Char
 
@@ -8,7 +9,7 @@ def splitLastDot (n : Str) : Option (Str × Str) :=
   if '.' ∈ r then some ((r.dropWhile (· != '.')).tail.reverse, (r.takeWhile (· != '.')).reverse) else none
 
 def dotdot : Str := ['.', '.']
-def txtpp : Str := "txtpp".toList
+def txtpp : Str := ['t', 'x', 't', 'p', 'p']
 
 /-- `Path::extension` on a file name -/
 def extension (n : Str) : Option Str :=
@@ -53,50 +54,4 @@ def getTxtppFile (ex : Str → Bool) (n : Str) : Option Str :=
     let p := setExtension n txtpp
     if ex p then some p else none
 
-def s (x : String) : Str := x.toList
-#eval [s "foo.txtpp", s "foo.bar.txtpp", s "foo.txtpp.bar", s "foo.bar", s "foo", s "txtpp", s ".txtpp", s "a.txtpp.b.c"].map isTxtppFile
-#eval [s "foo", s "foo.bar", s "foo.bar.txtpp", s "foo.txtpp.bar", s "foo.txtpp", s "foo.txtpp.txtpp", s ".hidden.txtpp", s "a..txtpp"].map (fun n => (removeTxtpp n).map String.ofList)
-
--- brute force: all names over tokens, check the round trip get → remove
-def toks : List Str := [s "a", s ".", s "txtpp", s "b"]
-def names : Nat → List Str
-  | 0 => [[]]
-  | k + 1 => (names k) ++ (names k).flatMap (fun n => toks.map (fun t => n ++ t))
-
-def check (n : Str) : List (String × String × String) :=
-  -- candidates the code would probe
-  let cands := match extension n with
-    | some e => [setExtension n (e ++ '.' :: txtpp), setExtension (setExtension (setExtension n (e ++ '.' :: txtpp)) []) (txtpp ++ '.' :: e)]
-    | none => [setExtension n txtpp]
-  cands.filterMap (fun c =>
-    match getTxtppFile (fun x => x == c) n with
-    | some src => if removeTxtpp src == some n then none else some (String.ofList n, String.ofList src, toString ((removeTxtpp src).map String.ofList))
-    | none => none)
-
-#eval ((names 5).eraseDups.filter (· ≠ [])).length
-#eval ((names 5).eraseDups.filter (· ≠ [])).flatMap check |>.take 40
-end PathName
-namespace PathName
-def hasDotDot : Str → Bool
-  | '.' :: '.' :: _ => true
-  | _ :: cs => hasDotDot cs
-  | [] => false
-def wellDotted (n : Str) : Bool := !hasDotDot n && n.getLast? != some '.'
-#eval ((names 6).eraseDups.filter (fun n => n ≠ [] && wellDotted n)).length
-#eval ((names 6).eraseDups.filter (fun n => n ≠ [] && wellDotted n)).flatMap check |>.take 20
--- outputs of the three shapes
-#eval [s "foo.ext.txtpp", s "foo.txtpp.ext", s "foo.txtpp", s "a.b.ext.txtpp", s ".hid.txtpp", s ".txtpp.ext"].map (fun n => (removeTxtpp n).map String.ofList)
-end PathName
-namespace PathName
-def check2 (src : Str) : Option (String × String) :=
-  if isTxtppFile src && wellDotted src then
-    match removeTxtpp src with
-    | none => some (String.ofList src, "remove=none")
-    | some n =>
-      if isTxtppFile n then none   -- x.txtpp.txtpp: outside the domain
-      else match getTxtppFile (fun x => x == src) n with
-        | some s' => if s' == src then none else some (String.ofList src, String.ofList s')
-        | none => some (String.ofList src, "notfound via " ++ String.ofList n)
-  else none
-#eval ((names 6).eraseDups.filter (· ≠ [])).filterMap check2 |>.take 20
 end PathName
